@@ -20,7 +20,7 @@ RULE = (
     "lines, empty}; every applicable sequence up to depth D is run from scratch on a forced-ANSI output at terminal widths "
     "10 and 80 (COLUMNS), the whole stream replayed on the emulator after the last operation and compared with the stacked "
     "model; the same sequences on an output without ANSI support must produce exactly the appended lines and no control "
-    "code. Random histories of length up to 40, in thorough also with sections created inside indentation scopes and with "
+    "code. Random histories of length up to 40, half of them with sections created inside indentation scopes, a fifth with texts of 30 and 70 lines (more rows than a real terminal is high), in thorough also with "
     "style tags in the text. Two-output histories (2-30 steps): the standard and error output of one I/O object, each with its own stream and screen, sections created singly or pairwise through IO.section(), write_line with flag words at section verbosity 0/1/2/4 (a suppressed write leaves no trace), texts with backslash-escaped '<' whose visible width is at / next to the terminal width. non-trivial = history that touches >= 2 sections with a write to a non-last section, or "
     "contains a wrapped line; distinct by (width, operation tuple)."
 )
@@ -295,22 +295,26 @@ def run(sh, spec):
         for i in range(spec["n"]):
             w = rng.choice([10, 10, 17, 80])
             texts = texts_for(w)
-            rich = spec["rich"] and rng.random() < 0.5
+            rich = rng.random() < 0.5
             tagged = spec["rich"] and rng.random() < 0.3
+            tall = (not tagged) and rng.random() < 0.2
             if tagged:
                 texts = texts + ["<b>bold</b> and <info>green</info>", "<error>" + "e" * (w + 3) + "</error>"]
+            if tall:
+                # more rows than any real terminal is high
+                texts = texts + ["\n".join("row%d" % k for k in range(30)), "\n".join("r%d" % k for k in range(70))]
             ops = [("new",)]
             model = [[]]
             for _ in range(rng.randint(1, 40)):
                 cands = applicable_ops(model, w)
-                if tagged:
+                if tagged or tall:
                     cands += [("w", s, t) for s in range(len(model)) for t in (7, 8)]
                 op = cands[rng.randrange(len(cands))]
                 ops.append(op)
                 apply_model(model, op, texts)
             nnew = sum(1 for o in ops if o[0] == "new")
             inds = [rng.choice([0, 0, 2, 4]) for _ in range(nnew)] if rich else None
-            rec = {"width": w, "ops": [list(o) for o in ops], "indents": inds, "tagged": tagged}
+            rec = {"width": w, "ops": [list(o) for o in ops], "indents": inds, "tagged": tagged, "tall": tall}
             judge(sh, lab, ops, w, texts, rec, inds, tagged)
             sh.case((w, tuple(ops), tuple(inds or ())), nontrivial(ops, texts, w))
             if i < 1:
@@ -436,6 +440,8 @@ def replay(sh, case):
     texts = texts_for(w)
     if case.get("tagged"):
         texts = texts + ["<b>bold</b> and <info>green</info>", "<error>" + "e" * (w + 3) + "</error>"]
+    if case.get("tall"):
+        texts = texts + ["\n".join("row%d" % k for k in range(30)), "\n".join("r%d" % k for k in range(70))]
     if case.get("kind") == "multi":
         sh.inconclusive_because("two-output history replay: rerun the check with the same VERIF_SEED (the record lists the steps)")
         return
